@@ -368,7 +368,7 @@ def main(tier, replay=None):
     if quick:
         hists = rng.sample(hists, 500)
     # the traces are replayed and validated chunk by chunk: the whole thorough tier at once held over 20 GB of events
-    CH = 400
+    CH = 400 if quick else 2000
     count = [0]
     first = []
     pending = []
